@@ -96,8 +96,15 @@ struct TempTree {
 impl TempTree {
     fn new(t: &Tree) -> TempTree {
         let base = BASE.get_or_init(|| std::fs::canonicalize(std::env::temp_dir()).expect("temp dir"));
-        let n = COUNTER.fetch_add(1, Ordering::SeqCst);
-        let dir = base.join(format!("duck-c14-{}-{}", std::process::id(), n));
+        // ONE root per worker thread, emptied and refilled for every case: file paths recur from
+        // case to case, so state that the implementation keeps between parses (a cache, a
+        // "currently including" list that is not cleaned up after an error, …) meets the same
+        // paths again with different contents
+        thread_local! {
+            static SLOT: usize = COUNTER.fetch_add(1, Ordering::SeqCst);
+        }
+        let n = SLOT.with(|s| *s);
+        let dir = base.join(format!("duck-c14-{}-t{}", std::process::id(), n));
         let _ = std::fs::remove_dir_all(&dir);
         std::fs::create_dir_all(&dir).expect("create temp root");
         let root = dir.to_string_lossy().into_owned();
